@@ -18,10 +18,12 @@ import (
 	"crypto/rand"
 	"crypto/x509"
 	"crypto/x509/pkix"
+	"encoding/base64"
 	"encoding/json"
 	"encoding/pem"
 	"errors"
 	"fmt"
+	"io"
 	"math/big"
 	"net/http"
 	"net/http/httptest"
@@ -48,6 +50,7 @@ import (
 	"github.com/dadrus/heimdall/internal/rules/mechanisms/authorizers"
 	"github.com/dadrus/heimdall/internal/rules/mechanisms/contextualizers"
 	"github.com/dadrus/heimdall/internal/rules/mechanisms/finalizers"
+	"github.com/dadrus/heimdall/internal/rules/mechanisms/oauth2"
 	"github.com/dadrus/heimdall/internal/rules/mechanisms/subject"
 	"github.com/dadrus/heimdall/internal/watcher"
 )
@@ -57,6 +60,12 @@ func init() {
 	families["c10mech"] = runC10Mech
 	families["c10http"] = runC10HTTP
 }
+
+// per-step data exchanged between c10RunSteps and the executors (cases run one after another)
+var (
+	c10CurStep map[string]any // the step being executed
+	c10Extra   map[string]any // additional observables of the step, merged into its result
+)
 
 var errC10Retry = errors.New("c10: wall clock moved across a guard, case must be re-run")
 
@@ -75,6 +84,7 @@ type c10Backend interface {
 // How a non-positive TTL is treated is not assumed but taken from the real in-memory cache (probed once).
 type c10VEntry struct {
 	val     []byte
+	orig    []byte // what was written (val may have been aged)
 	until   time.Duration
 	forever bool
 }
@@ -83,12 +93,52 @@ type c10Virtual struct {
 	now              time.Duration
 	nonPositiveStays bool
 	m                map[string]c10VEntry
+	// aging: when the clock is advanced, absolute time stamps inside cached JSON documents ("exp", "iat", "nbf")
+	// are moved into the past by the same amount. The code under test reads the wall clock, which does not move
+	// with the simulated time; a document that was cached dt seconds ago must look dt seconds older to it (the
+	// introspection authenticator re-validates a cached response against the wall clock on every hit).
+	aging      bool
+	lastOrigin []byte
 }
 
 func (c *c10Virtual) Start(context.Context) error { return nil }
 func (c *c10Virtual) Stop(context.Context) error  { return nil }
-func (c *c10Virtual) advance(d time.Duration)     { c.now += d }
-func (c *c10Virtual) close()                      {}
+func (c *c10Virtual) advance(d time.Duration) {
+	c.now += d
+
+	if !c.aging || d < time.Second {
+		return
+	}
+
+	for k, e := range c.m {
+		dec := json.NewDecoder(bytes.NewReader(e.val))
+		dec.UseNumber()
+
+		var doc map[string]any
+		if dec.Decode(&doc) != nil {
+			continue
+		}
+
+		changed := false
+
+		for _, f := range []string{"exp", "iat", "nbf"} {
+			if n, ok := doc[f].(json.Number); ok {
+				if v, err := n.Int64(); err == nil {
+					doc[f] = json.Number(strconv.FormatInt(v-int64(d/time.Second), 10))
+					changed = true
+				}
+			}
+		}
+
+		if changed {
+			if raw, err := json.Marshal(doc); err == nil {
+				e.val = raw
+				c.m[k] = e
+			}
+		}
+	}
+}
+func (c *c10Virtual) close() {}
 
 func (c *c10Virtual) Get(_ context.Context, key string) ([]byte, error) {
 	e, ok := c.m[key]
@@ -97,13 +147,15 @@ func (c *c10Virtual) Get(_ context.Context, key string) ([]byte, error) {
 		return nil, memory.ErrNoCacheEntry
 	}
 
+	c.lastOrigin = e.orig
+
 	return e.val, nil
 }
 
 func (c *c10Virtual) Set(_ context.Context, key string, value []byte, ttl time.Duration) error {
 	if ttl <= 0 {
 		if c.nonPositiveStays {
-			c.m[key] = c10VEntry{val: value, forever: true}
+			c.m[key] = c10VEntry{val: value, orig: value, forever: true}
 		}
 
 		return nil
@@ -115,7 +167,7 @@ func (c *c10Virtual) Set(_ context.Context, key string, value []byte, ttl time.D
 		ttl = (ttl/time.Second + 1) * time.Second
 	}
 
-	c.m[key] = c10VEntry{val: value, until: c.now + ttl}
+	c.m[key] = c10VEntry{val: value, orig: value, until: c.now + ttl}
 
 	return nil
 }
@@ -187,10 +239,10 @@ func (c *c10Redis) advance(d time.Duration) {
 }
 func (c *c10Redis) close() {}
 
-func c10NewBackend(kind string) (c10Backend, error) {
+func c10NewBackend(kind string, aging bool) (c10Backend, error) {
 	switch kind {
 	case "virtual":
-		return &c10Virtual{m: map[string]c10VEntry{}, nonPositiveStays: c10ProbeMemory()}, nil
+		return &c10Virtual{m: map[string]c10VEntry{}, nonPositiveStays: c10ProbeMemory(), aging: aging}, nil
 	case "memory":
 		cch, err := memory.NewCache(nil, nil, nil)
 		if err != nil {
@@ -234,8 +286,13 @@ func (r *c10Recorder) Get(ctx context.Context, key string) ([]byte, error) {
 
 	val, err := r.inner.Get(ctx, key)
 	if err == nil {
+		written := val
+		if v, ok := r.inner.(*c10Virtual); ok && v.lastOrigin != nil {
+			written = v.lastOrigin
+		}
+
 		for i := len(r.all) - 1; i >= 0; i-- {
-			if r.all[i].key == key && bytes.Equal(r.all[i].val, val) {
+			if r.all[i].key == key && bytes.Equal(r.all[i].val, written) {
 				r.hitFrom = r.all[i].step
 
 				break
@@ -460,8 +517,16 @@ func c10Server() *httptest.Server {
 			_ = json.NewEncoder(w).Encode(map[string]any{"serial": c10Rem.step})
 		})
 		mux.HandleFunc("/res/", c10ServeResource)
+		mux.HandleFunc("/meta/", c10ServeResource)
 
-		c10Srv = httptest.NewServer(mux)
+		c10Srv = httptest.NewUnstartedServer(mux)
+
+		if ln, err := verifListen("127.0.0.1:0"); err == nil {
+			_ = c10Srv.Listener.Close()
+			c10Srv.Listener = ln
+		}
+
+		c10Srv.Start()
 	})
 
 	return c10Srv
@@ -849,6 +914,23 @@ func c10Build(c map[string]any) (c10Exec, error) {
 			conf["ttl"] = c10Secs(*ttl)
 		}
 
+		// a claims template that tries to supply the registered lifetime claims itself (e.g. to propagate the end
+		// of the upstream session); the values come from subject attributes set per request
+		tpl := ""
+
+		switch getStr(c, "tpl") {
+		case "exp":
+			tpl = `{"exp": {{ .Subject.Attributes.sexp }}}`
+		case "nbf":
+			tpl = `{"nbf": {{ .Subject.Attributes.snbf }}}`
+		case "both":
+			tpl = `{"exp": {{ .Subject.Attributes.sexp }}, "nbf": {{ .Subject.Attributes.snbf }}}`
+		}
+
+		if tpl != "" {
+			conf["claims"] = tpl
+		}
+
 		proto, err := finalizers.CreatePrototype(c10Creation{}, "c10", finalizers.FinalizerJwt, conf)
 		if err != nil {
 			return nil, err
@@ -859,6 +941,8 @@ func c10Build(c map[string]any) (c10Exec, error) {
 			oc := map[string]any{}
 			if t := c10OptInt(ovr, "ttl"); t != nil {
 				oc["ttl"] = c10Secs(*t)
+			} else if tpl != "" {
+				oc["claims"] = tpl
 			} else {
 				oc["claims"] = `{"x": "y"}`
 			}
@@ -870,14 +954,59 @@ func c10Build(c map[string]any) (c10Exec, error) {
 
 		return func(rec *c10Recorder, key int) (bool, error) {
 			ctx := c10NewCtx(rec, nil)
-			sec := time.Now().Unix()
-			err := fin.Execute(ctx, &subject.Subject{ID: "user-" + strconv.Itoa(key)})
+			sec := c10Now().Unix()
+			attrs := map[string]any{}
+
+			// the cache entry is the logical one of the step (see c10Recorder): the attribute values are expressed
+			// relative to now, as everything the remote parties say
+			if v := c10OptInt(c10CurStep, "sexp"); v != nil {
+				attrs["sexp"] = sec + *v
+			}
+
+			if v := c10OptInt(c10CurStep, "snbf"); v != nil {
+				attrs["snbf"] = sec + *v
+			}
+
+			err := fin.Execute(ctx, &subject.Subject{ID: "user-" + strconv.Itoa(key), Attributes: attrs})
 
 			c10Rem.mu.Lock()
 			c10Rem.sec = sec
 			c10Rem.mu.Unlock()
 
-			return err == nil && strings.HasPrefix(ctx.upstream.Get("Authorization"), "Bearer "), nil
+			header := ctx.upstream.Get("Authorization")
+			if err != nil || !strings.HasPrefix(header, "Bearer ") {
+				return false, nil //nolint:nilerr
+			}
+
+			// what the token that is handed out says about its own lifetime
+			parts := strings.Split(strings.TrimPrefix(header, "Bearer "), ".")
+			if len(parts) != 3 { //nolint:mnd
+				return false, nil
+			}
+
+			raw, derr := base64.RawURLEncoding.DecodeString(parts[1])
+			if derr != nil {
+				return false, nil //nolint:nilerr
+			}
+
+			// numbers as the recipient of the token would read them (a template supplied value may be written in
+			// exponent notation)
+			var claims struct {
+				Exp *float64 `json:"exp"`
+				Iat *float64 `json:"iat"`
+				Nbf *float64 `json:"nbf"`
+			}
+
+			if derr = json.Unmarshal(raw, &claims); derr != nil || claims.Exp == nil || claims.Iat == nil {
+				return false, nil //nolint:nilerr
+			}
+
+			c10Extra = map[string]any{"life": int64(*claims.Exp) - int64(*claims.Iat)}
+			if claims.Nbf != nil {
+				c10Extra["nbf"] = int64(*claims.Nbf) - int64(*claims.Iat)
+			}
+
+			return true, nil
 		}, nil
 	case "remote":
 		conf := map[string]any{
@@ -947,7 +1076,7 @@ func c10Build(c map[string]any) (c10Exec, error) {
 }
 
 func c10RunSteps(c map[string]any, exec c10Exec, perStep func(step map[string]any)) (any, error) {
-	backend, err := c10NewBackend(getStr(c, "store"))
+	backend, err := c10NewBackend(getStr(c, "store"), getStr(c, "mech") == "introspection")
 	if err != nil {
 		return nil, err
 	}
@@ -987,6 +1116,8 @@ func c10RunSteps(c map[string]any, exec c10Exec, perStep func(step map[string]an
 
 		rec.begin(i, getInt(step, "key"))
 
+		c10CurStep, c10Extra = step, nil
+
 		before := time.Now()
 		ok, err := exec(rec, getInt(step, "key"))
 		after := time.Now()
@@ -1018,10 +1149,18 @@ func c10RunSteps(c map[string]any, exec c10Exec, perStep func(step map[string]an
 			}
 		}
 
-		out = append(out, map[string]any{
+		res := map[string]any{
 			"ok": ok, "hit": ok && up == 0 && rec.hitFrom >= 0, "src": src, "gets": rec.gets, "up": up,
 			"set": rec.setSeconds(),
-		})
+		}
+
+		if ok {
+			for k, v := range c10Extra {
+				res[k] = v
+			}
+		}
+
+		out = append(out, res)
 	}
 
 	// the real in-memory cache runs on the wall clock: such scenarios have no time steps and must be over long
@@ -1100,7 +1239,7 @@ func runC10Mech(c map[string]any) (any, error) {
 // ---------------------------------------------------------------------------------------------------------------
 // HTTP responses of a remote endpoint through endpoint.Endpoint.CreateClient (httpcache.RoundTripper)
 
-func c10ServeResource(w http.ResponseWriter, _ *http.Request) {
+func c10ServeResource(w http.ResponseWriter, r *http.Request) {
 	c10Rem.mu.Lock()
 	defer c10Rem.mu.Unlock()
 
@@ -1120,7 +1259,7 @@ func c10ServeResource(w http.ResponseWriter, _ *http.Request) {
 		cc = append(cc, "s-maxage="+strconv.FormatInt(*v, 10))
 	}
 
-	for _, d := range []string{"no-store", "public", "private", "must-revalidate"} {
+	for _, d := range []string{"no-store", "no-cache", "public", "private", "must-revalidate"} {
 		if getBool(res, d) {
 			cc = append(cc, d)
 		}
@@ -1142,36 +1281,112 @@ func c10ServeResource(w http.ResponseWriter, _ *http.Request) {
 		w.Header()["Date"] = nil // suppress the automatic Date header
 	}
 
+	if v := c10OptInt(res, "lastmod"); v != nil {
+		w.Header().Set("Last-Modified", base.Add(time.Duration(*v)*time.Second).Format(http.TimeFormat))
+	}
+
+	if v := c10OptInt(res, "age"); v != nil {
+		w.Header().Set("Age", strconv.FormatInt(*v, 10))
+	}
+
+	if getBool(res, "vary") {
+		w.Header().Set("Vary", "Accept-Language")
+	}
+
+	serial := strconv.Itoa(c10Rem.step)
+	w.Header().Set("X-Serial", serial)
+
 	status := getInt(res, "status")
 	if status == 0 {
 		status = http.StatusOK
 	}
 
+	if strings.HasPrefix(r.URL.Path, "/meta/") {
+		// an OAuth2 server metadata document; the jwks_uri tells which answer a resolution is based on
+		w.Header().Set("Content-Type", "application/json")
+		w.WriteHeader(status)
+		_ = json.NewEncoder(w).Encode(map[string]any{
+			"issuer":   "http://" + r.Host,
+			"jwks_uri": "http://" + r.Host + "/jwks/v" + serial,
+		})
+
+		return
+	}
+
 	w.WriteHeader(status)
-	_, _ = w.Write([]byte("body-" + strconv.Itoa(c10Rem.step)))
+	_, _ = w.Write([]byte("body-" + serial))
+}
+
+// endpoint settings of an HTTP case: "hc" = the http_cache settings as configured (absent = not configured),
+// otherwise caching is enabled with "dttl" as default_ttl
+func c10HTTPCacheConf(c map[string]any) *endpoint.HTTPCache {
+	hc, configured := c["hc"]
+	if !configured {
+		if getStr(c, "via") == "metadata" {
+			return nil // http_cache not configured: the metadata endpoint applies its own default
+		}
+
+		return &endpoint.HTTPCache{Enabled: true, DefaultTTL: time.Duration(getInt(c, "dttl")) * time.Second}
+	}
+
+	m := obj(hc)
+	if m == nil {
+		return nil
+	}
+
+	conf := &endpoint.HTTPCache{Enabled: getBool(m, "enabled")}
+	if v := c10OptInt(m, "dttl"); v != nil {
+		conf.DefaultTTL = time.Duration(*v) * time.Second
+	}
+
+	return conf
 }
 
 func runC10HTTP(c map[string]any) (any, error) {
 	srv := c10Server()
+	viaMetadata := getStr(c, "via") == "metadata"
 
 	for range c10MaxRetries {
-		ep := endpoint.Endpoint{
-			URL:    srv.URL + "/res/",
-			Method: getStr(c, "method"),
-			HTTPCache: &endpoint.HTTPCache{
-				Enabled:    true,
-				DefaultTTL: time.Duration(getInt(c, "dttl")) * time.Second,
-			},
-		}
-
 		var cur map[string]any
 
 		exec := func(rec *c10Recorder, key int) (bool, error) {
-			e := ep
-			e.URL = ep.URL + strconv.Itoa(key)
-			app := cache.WithContext(context.Background(), rec)
+			app := cache.WithContext(zerolog.Nop().WithContext(context.Background()), rec)
 
-			req, err := e.CreateRequest(app, nil, nil)
+			if viaMetadata {
+				// the server metadata resolution used by the jwt and oauth2_introspection authenticators
+				me := oauth2.MetadataEndpoint{
+					Endpoint: endpoint.Endpoint{
+						URL:       srv.URL + "/meta/" + strconv.Itoa(key),
+						HTTPCache: c10HTTPCacheConf(c),
+					},
+					DisableIssuerIdentifierVerification: true,
+				}
+
+				sm, err := me.Get(app, map[string]any{})
+				if err != nil {
+					return false, nil //nolint:nilerr
+				}
+
+				return sm.JWKSEndpoint != nil && strings.Contains(sm.JWKSEndpoint.URL, "/jwks/v"), nil
+			}
+
+			method := getStr(cur, "method")
+			if method == "" {
+				method = getStr(c, "method")
+			}
+
+			e := endpoint.Endpoint{
+				URL:       srv.URL + "/res/" + strconv.Itoa(key),
+				Method:    method,
+				HTTPCache: c10HTTPCacheConf(c),
+			}
+
+			var body io.Reader
+			if getBool(cur, "body") {
+				body = strings.NewReader("payload")
+			}
+
+			req, err := e.CreateRequest(app, body, nil)
 			if err != nil {
 				return false, err
 			}
@@ -1191,10 +1406,9 @@ func runC10HTTP(c map[string]any) (any, error) {
 
 			defer resp.Body.Close()
 
-			var buf bytes.Buffer
-			_, _ = buf.ReadFrom(resp.Body)
+			_, _ = io.Copy(io.Discard, resp.Body)
 
-			return strings.HasPrefix(buf.String(), "body-"), nil
+			return resp.Header.Get("X-Serial") != "", nil
 		}
 
 		res, err := c10RunSteps(c, exec, func(step map[string]any) {
